@@ -22,7 +22,7 @@ Emit == PrintT("@@CASE " \o ToJson([choice |-> c, schema |-> Valid(c),
                                                   i \in {j \in 1..Len(Valid(c).types) :
                                                     Dev_NestedAggrNotRegistered(Valid(c), Valid(c).types[j])}},
                                     \* (the mutants are written for the plain names and for schemas with at least three entities)
-                                    mutants |-> IF WithMutants /\ "nm" \notin DOMAIN c /\ c.inh # "single" THEN Mutants(c) \cup LexMutants \cup Stretched(c) ELSE {}]))
+                                    mutants |-> IF WithMutants /\ "nm" \notin DOMAIN c /\ c.inh \notin {"single", "noents"} THEN Mutants(c) \cup LexMutants \cup Stretched(c) ELSE {}]))
 (* AttrOrder has no duplicates and ends with the entity's own attributes *)
 OrderSane == \A i \in 1..Len(Valid(c).ents) :
                LET o == AttrOrder(Valid(c), Valid(c).ents[i].name) e == Valid(c).ents[i] IN
